@@ -139,6 +139,21 @@ class ExecMixin:
         if k == "assign":
             dty = self.place_ty(frame, stmt["place"])
             v = self.eval_rvalue(st, frame, bb, stmt["rv"], dty, stmt.get("ln"))
+            rv = stmt["rv"]
+            if rv["k"] == "bin" and rv["op"] == "BitXor" and not self.mute:
+                # in-place XOR of a buffer element with another buffer's element (hide/reveal chains)
+                try:
+                    dloc = self.resolve_place(st, frame, stmt["place"])
+                    if dloc[0] != "slice" and dloc[1] and dloc[1][-1][0] in ("e", "ei"):
+                        di = dloc[1][-1][1] if dloc[1][-1][0] == "ei" else Lin.const(dloc[1][-1][1])
+                        for o in (rv["l"], rv["r"]):
+                            ov = self.eval_operand(st, frame, o)
+                            if isinstance(ov, VInt) and len(ov.lin.t) == 1 and ov.lin.c == 0:
+                                info = getattr(self, "elem_syms", {}).get(next(iter(ov.lin.t)))
+                                if info is not None:
+                                    st.emit(("xor", dloc[0], di, info[0], info[1], {"fn": frame.fn["name"], "bb": bb, "ln": stmt.get("ln")}, info[2]))
+                except Abort:
+                    pass
             if isinstance(v, Alts):
                 out = []
                 for s2, v2 in v.items:
@@ -443,12 +458,13 @@ class ExecMixin:
         self.stats["loops"] += 1
         lid = (frame.key, head)
         havoc = {}          # (cell, keypath) -> (sym or None, kind)
+        prefixes = {}       # (cell, keypath of content) -> common prefix of the segment description
         cands = None
         entry_vals = {}
         self.mute += 1
         try:
             for it in range(12):
-                H, hv = self.make_head(st0, havoc, cands, lid, entry_vals)
+                H, hv = self.make_head(st0, havoc, cands, lid, entry_vals, prefixes)
                 if cands is None:
                     cands = []
                 succs = self.exec_block(frame, H.fork(), head)
@@ -464,6 +480,23 @@ class ExecMixin:
                         if vb is None or vb is v0:
                             continue
                         for kp, kind in self.diff(b, v0, vb, ()):
+                            if kind == "content":
+                                # keep the longest common prefix of the buffer's segment description
+                                a0 = self.vget(st0.cells[cell], kp[:-1]) if kp[:-1] else st0.cells[cell]
+                                b0 = self.vget(vb, kp[:-1]) if kp[:-1] else vb
+                                cur = prefixes.get((cell, kp))
+                                base = cur if cur is not None else (a0.segs if isinstance(a0, VVec) and a0.segs is not None else ())
+                                other = b0.segs if isinstance(b0, VVec) and b0.segs is not None else ()
+                                pre = []
+                                for x, y in zip(base, other):
+                                    if x[0] == y[0] and x[1] == y[1]:
+                                        pre.append(x)
+                                    else:
+                                        break
+                                pre = tuple(pre)
+                                if cur is None or len(pre) < len(cur):
+                                    prefixes[(cell, kp)] = pre
+                                    changed = True
                             if (cell, kp) not in havoc:
                                 # subsumed by an already havoced prefix?
                                 if any((cell, kp[:i]) in havoc for i in range(len(kp))):
@@ -491,7 +524,7 @@ class ExecMixin:
         finally:
             self.mute -= 1
         # final pass (obligations recorded)
-        H, hv = self.make_head(st0, havoc, cands, lid, entry_vals)
+        H, hv = self.make_head(st0, havoc, cands, lid, entry_vals, prefixes)
         succs = self.exec_block(frame, H.fork(), head)
         items = [(s, x) for k, s, x in succs if k == "goto"]
         rets = [(s, x) for k, s, x in succs if k == "ret"]
@@ -505,6 +538,8 @@ class ExecMixin:
                 "invariants": [self.cand_str(c) for c in cands],
                 "back_edges": len(res["back"]), "exits": len(res["exit"]),
             })
+        for s_, _ in res["exit"]:
+            s_.ghost["loops_done"] = s_.ghost.get("loops_done", ()) + (lid,)
         hook = self.hooks.get("loop")
         if hook:
             hook(frame, head, H, res, havoc, lid)
@@ -537,7 +572,7 @@ class ExecMixin:
                 return with_child(v, key, self.vset(c, kp[1:], nv))
         raise Abort("vset: no child %r" % (key,))
 
-    def make_head(self, st0, havoc, cands, lid, entry_vals):
+    def make_head(self, st0, havoc, cands, lid, entry_vals, prefixes=None):
         H = st0.fork()
         hv = {}
         for (cell, kp), kind in havoc.items():
@@ -556,6 +591,20 @@ class ExecMixin:
                 self._entry[(lid, (cell, kp))] = old.lin if isinstance(old, VInt) else None
                 H.cells[cell] = self.vset(root, kp, nv)
                 hv[(cell, kp)] = s
+            elif kind == "content":
+                pre = (prefixes or {}).get((cell, kp), ())
+                root = H.cells[cell]
+                vec = self.vget(root, kp[:-1]) if kp[:-1] else root
+                if isinstance(vec, VVec):
+                    if pre:
+                        tot = Lin.const(0)
+                        for sl, sd in pre:
+                            tot = tot + sl
+                        segs = tuple(pre) + ((vec.len - tot, ("unknown", self.hsym(lid, cell, kp))),)
+                    else:
+                        segs = None
+                    nvec = VVec(vec.len, segs, None, (vec.name or "vec") + "~", vec.elem_ty, None)
+                    H.cells[cell] = self.vset(root, kp[:-1], nvec) if kp[:-1] else nvec
             else:
                 old = self.vget(st0.cells[cell], kp) if kp else st0.cells[cell]
                 nv = self.havoc_value(H, old, self.hsym(lid, cell, kp))
@@ -622,7 +671,7 @@ class ExecMixin:
             if not self.same_lin(st, v0.len, vb.len):
                 yield (kp + (("len",),), "int")
             if v0.segs != vb.segs or v0.elems != vb.elems or v0.marks != vb.marks:
-                yield (kp + (("content",),), "any")
+                yield (kp + (("content",),), "content")
             return
         if isinstance(v0, VReader):
             if not self.same_lin(st, v0.L, vb.L):
